@@ -78,6 +78,8 @@ class Corpus:
                 self.add_text(text, origin="framed")
             for text in GD.optional_in_sized(random.Random(self.seed * 7919 + 19)):
                 self.add_text(text, origin="optional-in-sized")
+            for text in GD.sized_body(random.Random(self.seed * 7919 + 23)):
+                self.add_text(text, origin="sized-body")
             for text in GD.wide(irng, 2 if self.tier == "quick" else 12):
                 self.add_text(text, origin="wide")
         tries = 0
